@@ -65,6 +65,16 @@ def case(g, tier, ci):
                               kinds=("ramp",) if seqx else ("ramp", "sine"), flags_p=0.3, delays_p=0.5, filters_p=0.6,
                               sub_p=0.0 if seqx else 0.3, seq_p=0.3, waits=0.2, amp=100)
     ops += sops + [{"op": "sq.copy", "id": "s", "to": "s2"}]
+    # a blueprint-only element queried, edited and queried again (cached SR / duration must not go stale)
+    ops += [{"op": "el.new", "id": "e3"}, {"op": "el.addBP", "id": "e3", "ch": 1, "bp": "b"}, {"op": "el.addBP", "id": "e3", "ch": "B", "bp": "b"},
+            {"op": "sq.new", "id": "s3"}, {"op": "sq.setSR", "id": "s3", "v": enc(SR)}, {"op": "sq.addElement", "id": "s3", "pos": 1, "el": "e3"},
+            {"op": "el.duration", "id": "e3"}, {"op": "sq.duration", "id": "s3"}]
+    nd = r.randint(2, 30)
+    for chx in (1, "B"):
+        ops.append({"op": "el.changeDur", "id": "e3", "ch": chx, "name": "tail", "dur": enc(nd / SR), "all": False})
+        ops.append({"op": "sq.elChangeDur", "id": "s3", "pos": 1, "ch": chx, "name": "tail", "dur": enc(nd / SR), "all": False})
+    ops += [{"op": "el.duration", "id": "e3"}, {"op": "el.points", "id": "e3"}, {"op": "el.duration", "id": "e3"},
+            {"op": "sq.duration", "id": "s3"}, {"op": "sq.points", "id": "s3"}, {"op": "sq.duration", "id": "s3"}]
     ops += snapshot(0)
     calls = []
     el_in_s = list(sinfo["els"].values())
@@ -87,6 +97,20 @@ def case(g, tier, ci):
         else:
             c = r.choice([{"op": "bp.desc", "id": "b"}, {"op": "bp.points", "id": "b"}, {"op": "bp.duration", "id": "b"},
                           {"op": "bp.eq", "a": "b", "b": "b2"}, {"op": "bp.json", "id": "b", "to": "tmpb", "_nocmp": True}])
+        if r.random() < 0.12:
+            # a mutation in between: the following read-only calls must reflect it (no stale cache), and are
+            # again repeatable among themselves
+            nd = r.randint(2, 20)
+            m = {"op": "el.changeDur", "id": "e", "ch": 1, "name": "up", "dur": enc(nd / SR), "all": False}
+            # the raw-array channel keeps its length: the element is valid again only with the old total, so
+            # change 'up' and compensate on 'tail' is not possible with a waituntil in between -> use the copy e2
+            m = {"op": "el.changeDur", "id": "e2", "ch": 1, "name": "up", "dur": enc(min(nd, a) / SR), "all": False}
+            ops.append({**m, "_mutation": step})
+            ops += [{"op": "el.duration", "id": "e2", "_after_mut": True}, {"op": "el.points", "id": "e2"},
+                    {"op": "el.getArrays", "id": "e2", "time": False}, {"op": "el.duration", "id": "e2"}]
+            if el_in_s:
+                pass
+            continue
         if calls and r.random() < 0.25:
             c = dict(r.choice(calls))          # repeat an earlier call
         calls.append({k2: v for k2, v in c.items() if not k2.startswith("_") or k2 == "_nocmp"})
